@@ -98,6 +98,70 @@ def stream_case(case):
   return fn
 
 
+def check_unacked(case):
+  """case = {'unacked': 1, 'maxdata': n, 'len1': n, 'len2': n, 'other_stream': bool, 'plan': {...}}
+
+  The device never acknowledges the WRTE of stream 0: write() must give up by its timeout, and because ADB OKAYs do not say
+  which WRTE they acknowledge, no further WRTE may go out on that stream ("never more than one unacknowledged WRTE").
+  """
+  r = CaseResult()
+  vmode.setup(usb=True)
+  vmode.quiet_logging()
+  plan = {int(k): v for k, v in (case.get('plan') or {}).items()}
+
+  def fn(s):
+    m = fk.load()
+    ap = m.adb_protocol
+    script = [{'open': 'OKAY', 'wrtes': [], 'close': False, 'ack_host_writes': False}]
+    if case.get('other_stream'):
+      script.append({'open': 'OKAY', 'wrtes': ['xy'], 'close': False})
+    dev = fk.ScriptedAdbDevice(script, merge=[1] if case.get('other_stream') else [], maxdata=case['maxdata'],
+                               cond_factory=lambda: V.VCondition(sched=s), max_block_s=None)
+    conn = ap.AdbConnection.connect(dev, timeout_ms=5000)
+    streams = [conn.open_stream('svc%d:' % i, timeout_ms=5000) for i in range(len(script))]
+    calls = []
+    for n, tmo in ((case['len1'], 1000), (case['len2'], 1000)):
+      t0 = s.now
+      try:
+        streams[0].write('w' * n, timeout_ms=tmo)
+        calls.append(('ok', s.now - t0))
+      except Exception as e:  # pylint: disable=broad-except
+        calls.append((type(e).__name__, s.now - t0))
+    other = None
+    if case.get('other_stream'):
+      try:
+        other = streams[1].read(timeout_ms=1000)
+      except Exception as e:  # pylint: disable=broad-except
+        other = 'raised ' + type(e).__name__
+    wrtes = [x[2] for x in dev.log if x[0] == 'host' and x[1]['cmd'] == 'WRTE']
+    return {'calls': calls, 'violations': list(dev.violations), 'wrtes': wrtes, 'other': other}
+
+  s = V.Scheduler(plan=plan, time_limit=600.0, max_steps=250000)
+  res, exc = s.run(lambda: fn(s), watchdog_s=30.0)
+  desc = 'case=%r' % ({k: v for k, v in case.items()},)
+  r.nontrivial = True
+  r.classes = ['unacked-wrte', 'maxdata:%d' % case['maxdata']]
+  if s.failure is not None:
+    if s.failure[0] in ('deadlock', 'steplimit'):
+      r.bad('C14/unacked/no-progress', '%s; %s' % (s.failure[1][:400], desc))
+      return r, s
+    raise RuntimeError('scheduler failure: %r' % (s.failure,))
+  if exc is not None:
+    r.bad('C14/unacked/raised/%s' % type(exc).__name__, '%r %s' % (exc, desc))
+    return r, s
+  (how1, dur1), (how2, dur2) = res['calls']
+  if how1 == 'ok':
+    r.bad('C14/unacked/write-returned-without-OKAY', 'the device never acknowledged the WRTE but write() returned; %s' % desc)
+  if dur1 > 1.2 or dur2 > 1.2:
+    r.bad('C14/timeout-exceeded', 'write() took %.2fs / %.2fs with a 1 s timeout; %s' % (dur1, dur2, desc))
+  for v in res['violations']:
+    kind = 'second-WRTE-before-OKAY' if 'second WRTE' in v else 'chunk-exceeds-maxdata' if 'maxdata' in v else 'other'
+    r.bad('C14/flow-control/%s' % kind, '%s; host WRTEs %r, calls %r; %s' % (v, res['wrtes'], res['calls'], desc))
+  if case.get('other_stream') and res['other'] != 'xy':
+    r.bad('C14/unacked/other-stream-disturbed', 'stream 1 read %r, expected %r; %s' % (res['other'], 'xy', desc))
+  return r, s
+
+
 def check(case):
   r = CaseResult()
   vmode.setup(usb=True)
@@ -230,6 +294,7 @@ def plan(tier, seed):
     nsh = 2
     for sh in range(nsh):
       jobs.append({'kind': 'sweep', 'name': 'sweep%d.%d' % (ci, sh), 'case': ci, 'shard': sh, 'nshards': nsh, 'stride': 4 if q else 1, 'offset': seed % 4 if q else 0})
+  jobs.append({'kind': 'unacked', 'name': 'unacked'})
   return jobs
 
 
@@ -240,6 +305,18 @@ def run_job(job, acct):
     runner.run_regress(sys.modules[__name__], job, acct)
     return
   setup_lines()
+  if job['kind'] == 'unacked':
+    for maxdata in (4, 16):
+      for len1 in (1, maxdata, maxdata + 1, 3 * maxdata):
+        for len2 in (1, maxdata + 1):
+          for other in (False, True):
+            case = {'unacked': 1, 'maxdata': maxdata, 'len1': len1, 'len2': len2, 'other_stream': other}
+            r, _ = check_unacked(case)
+            acct.case(case, r.nontrivial, r.classes)
+            for sig, detail in r.violations:
+              (acct.known if sig in known else acct.violation)(sig, case, detail)
+    acct.exhaustive_parts.append('never-acknowledged WRTE followed by another write(): maxdata x first/second write length x {other stream active}')
+    return
   if job['kind'] == 'hyp':
     hyp.search(acct, planned_cases(), lambda c: check(c)[0], seed=job['hseed'], max_examples=job['n'], known=known, shrink_budget_s=40)
   else:
@@ -261,4 +338,6 @@ def run_job(job, acct):
 
 def replay(case):
   setup_lines()
+  if case.get('unacked'):
+    return check_unacked(case)[0].violations
   return check(case)[0].violations
